@@ -11,9 +11,8 @@ Quirks of the code that are modelled on purpose:
 
 * `uri::Rsync` equality ignores the case of scheme and authority only; `eq_module` (used by
   the jail test) also ignores the case of the module name; `CurrentObjectUri` lower-cases
-  scheme and authority *only if the authority contains an upper-case letter* (rpki-rs
-  `canonical_module` borrows the module as written otherwise), so `RSYNC://host/m/x` and
-  `rsync://host/m/x` are equal URIs but different object keys.
+  scheme and authority (since fix 0b03ffe5; before, only if the authority contained an
+  upper-case letter – `keyPinned`).
 * staged elements are keyed by `uri::Rsync` (equality above) while current objects are keyed by
   `CurrentObjectUri`.
 * handles may contain `/`; the publisher base is `<base><handle>/`, the handle `ta` gets the
@@ -52,8 +51,14 @@ def rsEq (a b : Uri) : Bool :=
   a.scheme.eqIgnoreCase b.scheme && a.host.eqIgnoreCase b.host &&
   a.module == b.module && a.segs == b.segs && a.dir == b.dir
 
-/-- `CurrentObjectUri::from(&uri::Rsync)`: `canonical_module() + path()`. -/
-def key (u : Uri) : Uri :=
+/-- `CurrentObjectUri::from(&uri::Rsync)`: `rsync://` + canonical (lower-case) authority + module
+name + path (fix 0b03ffe5). -/
+def key (u : Uri) : Uri := { u with scheme := rsyncLower, host := u.host.lower }
+
+/-- PINNED TREE (before fix 0b03ffe5), kept as a counter-model only: the key was
+`canonical_module() + path()`, and rpki-rs `canonical_module` lower-cases scheme and authority
+only if the authority contains an upper-case letter. -/
+def keyPinned (u : Uri) : Uri :=
   if u.host.hasUpper then { u with scheme := rsyncLower, host := u.host.lower } else u
 
 /-- `uri::Rsync::eq_module`: scheme, authority and module name ignoring case. -/
@@ -71,11 +76,9 @@ def relPath (base u : Uri) : Option (List String) :=
   if eqModule base u && base.segs.isPrefixOf u.segs then some (u.segs.drop base.segs.length)
   else none
 
-/-- The URIs for which `rsEq` and equality of `key` coincide: scheme `rsync` (any case is
-accepted by the parser) and not the combination "scheme written with upper-case letters,
-authority written in lower case". -/
-def Uri.canon (u : Uri) : Bool :=
-  u.scheme.canon == "rsync" && (u.scheme.var == 0 || u.host.var != 0)
+/-- Well-formed rsync URIs (what the parser of rpki-rs accepts): the scheme is `rsync` in any
+case.  For these `rsEq` and equality of `key` coincide. -/
+def Uri.canon (u : Uri) : Bool := u.scheme.canon == "rsync"
 
 /-! ### Handles and the publisher base (`RepositoryAccess::publisher_rsync_base`) -/
 
